@@ -128,7 +128,7 @@ def check(run):
 
 
 MUTANTS = [
-    Mutant("decode-ignores-input", HP, "codeB64ToB2", "    i = b64ToInt(s)\n", "    i = 0\n", {"C26.R1"}, canary=True),
+    Mutant("decode-ignores-input", HP, "codeB2ToB64", "    i = int.from_bytes(b[:n], 'big')  # convert only first n bytes to int\n", "    i = 0\n", {"C26.R1"}, canary=True),
     Mutant("modulus-63", HP, "intToB64", "i % 64", "i % 63", {"C26.R2"}, canary=True),
     Mutant("weight-5-bits", HP, "b64ToInt", "(e * 6)", "(e * 5)", {"C26.R2"}),
     Mutant("pad-mod-3-in-one-sibling", HP, "codeB2ToB64", "tbs = 2 * (l % 4)", "tbs = 2 * (l % 3)", {"C26.R3"}, canary=True),
